@@ -62,6 +62,13 @@ class Session:
             return "ok", "", r.body
         return "err", "HTTP%d" % r.code, r.body
 
+    def reconfigure(self, k, n):
+        """the client comes back with other default encoding parameters (shares.needed / shares.total edited between two
+        runs of the node): the file is opened again by its cap through a new node object.  What the file holds does not
+        depend on the client's defaults."""
+        self.g.params["k"], self.g.params["n"] = k, n
+        self.node = self.g.make_nodemaker().create_from_cap(self.node.get_uri())
+
     def close(self):
         self.g.close()
 
@@ -183,6 +190,10 @@ def seeded_session(seed, idx, nops, workroot):
         ok = s.create([wid] * size)
         if not ok:
             return {"consts": {"fmt": fmt, "ss": SS, "session": idx}, "events": s.events}
+        if idx % 6 == 4 and s.via == "node":
+            # every sixth session: after the creation the client's default encoding is no longer the file's (2-of-4)
+            k2, n2 = random.Random("reconf-%d-%d" % (seed, idx)).choice([(3, 4), (1, 4), (3, 5), (4, 5)])
+            s.reconfigure(k2, n2)
         for i in range(rng.randint(3, nops)):
             wid += 1
             kind = rng.choice(["update", "update", "update", "update", "read", "read", "download", "overwrite", "modify"])
